@@ -170,11 +170,11 @@ Proof. intro site. repeat split; vm_compute; reflexivity. Qed.
 (* on this tree the witnesses above are crashes, so the full-strength statement is false *)
 Theorem no_crash_refuted : defect "mac-stateless-object" = true -> ~ no_crash_statement.
 Proof.
-  intros Hd H. specialize (H (1,2) store0 COk (IMAC (Some 3) true true)).
+  intros Hd H.
   assert (K : step_crash (1,2) store0 COk (IMAC (Some 3) true true) = true).
   { unfold step_crash. rewrite mac_stateless_object_refuted. unfold when. rewrite Hd. reflexivity. }
-  rewrite H in K; try discriminate; try reflexivity.
-  - repeat constructor.
-  - left; reflexivity.
+  assert (K2 : step_crash (1,2) store0 COk (IMAC (Some 3) true true) = false).
+  { apply H; [reflexivity | repeat constructor | exact I | left; reflexivity]. }
+  congruence.
 Qed.
 Print Assumptions no_crash_refuted.
